@@ -59,6 +59,27 @@ func judgeC17(x scnResult, res *MonitorResult) {
 	if final == "State_SwapCanceled" && x.w.offerSent[x.ctx.id] && !cancelRecv && !cancelSent && !sendFaulted(x.sc.steps) {
 		res.addFinding("C17/"+x.sc.role+"/peer-not-told", "the node cancelled a swap it had offered to the peer without sending cancel", map[string]interface{}{"scenario": scenarioKey(x.sc.steps)})
 	}
+	// the cancel is sent exactly once: when that one send fails (the peer is disconnected just then — the likeliest
+	// reason why nothing arrived, and the normal situation right after a restart) the swap is final and the peer
+	// is never told
+	if final == "State_SwapCanceled" && x.w.offerSent[x.ctx.id] && !cancelRecv && !cancelSent && onlySendFault(x.sc.steps) && !dead && !x.w.dead {
+		res.Histogram["cancel send failed once: peer never told"]++
+		res.addFinding("C17/"+x.sc.role+"/peer-not-told/the-one-cancel-send-failed", "the swap was cancelled (timeout or failure) while the peer could not be reached: the single cancel send failed, the swap is final, nothing is sent later", map[string]interface{}{"scenario": scenarioKey(x.sc.steps)})
+	}
+}
+
+// onlySendFault: the scenario has a failing send (the peer is not reachable at that moment) and no crash
+func onlySendFault(steps []string) bool {
+	f := false
+	for _, s := range steps {
+		if strings.HasPrefix(s, "crash") {
+			return false
+		}
+		if strings.HasPrefix(s, "fault send") {
+			f = true
+		}
+	}
+	return f
 }
 
 func sendFaulted(steps []string) bool {
@@ -104,6 +125,12 @@ func init() {
 		var all []scn
 		for _, role := range []string{"outSender", "inSender", "outReceiver"} {
 			all = append(all, negotiationScenarios(role, depth)...)
+		}
+		// the peer cannot be reached when the timer fires (the likeliest reason why nothing arrived)
+		for _, role := range []string{"outSender", "inSender", "outReceiver"} {
+			for _, chain := range []string{"btc", "lbtc"} {
+				all = append(all, scn{role: role, steps: []string{"new " + role + " " + chain, "fault send down", "timeout"}})
+			}
 		}
 		for i := 0; i < n/4; i++ {
 			role := []string{"outSender", "inSender", "outReceiver"}[r.intn(3)]
